@@ -30,7 +30,9 @@ lane() {
     d=$OUT/cand/$id; mkdir -p "$d"; cp "$OUT/surv/$id.diff" "$d/patch.diff"
     verdict="NOT-KILLED"; tried=""
     for p in $todo; do
-      line2=$("$VERIF/seeded/try.sh" "$d" quick $p 2>&1 | grep '^TRY' | tail -1)
+      out2=$("$VERIF/seeded/try.sh" "$d" quick $p 2>&1)
+      if echo "$out2" | grep -q PATCH-FAILED; then verdict="patch-does-not-apply"; break; fi
+      line2=$(echo "$out2" | grep '^TRY' | tail -1)
       rc=$(echo "$line2" | sed -n 's/.* exit=\([0-9]*\) .*/\1/p')
       tried="$tried $p:$rc"
       if [ "$rc" = "1" ]; then
